@@ -1,7 +1,7 @@
 (* Prop_C02.v — property theorems for C02, and nothing else: each statement is closed
    by `exact <lemma>` and followed by Print Assumptions. *)
 From Dig Require Import Base Sig State Graph GraphProofs Register Resolve Run Spec Check
-  ErrTable Err ErrTableCheck P_Once P_Frame P_Term GoTypes Parse RunRaw P_Glue.
+  ErrTable Err ErrTableCheck P_Once P_Frame P_Term GoTypes Parse RunRaw P_Glue ResolveRe RunRe P_Re.
 
 (* ---- C02: singletons.  wf_keys: single keys carry no group name, group keys
         carry one (what every parsed signature satisfies, P_Parse.C09_provide_keys) ---- *)
@@ -21,3 +21,58 @@ Theorem C02_holds_raw : forall cfg b du rh, raw_only rh ->
   chk_C02 (map lower_op rh) (map obs_of (run cfg b du (map lower_op rh))) = [].
 Proof. exact P_Glue.C02_raw. Qed.
 Print Assumptions C02_holds_raw.
+
+(* ---- C02 with re-entrant user code.  RunRe.run_re generalises the model with an oracle
+        `nest f e`: the Invoke calls that execution e of function f issues on the
+        container from inside its body (ResolveRe; tied to the implementation by the
+        re-entrant stream of the check).  It is conservative: without re-entrant
+        bodies it is the model every other theorem speaks about ---- *)
+Theorem C02_reentrant_model_conservative : forall cfg b du h,
+  run_re cfg b (fun _ _ => []) du h = run cfg b du h.
+Proof. exact P_Re.run_re_conservative. Qed.
+Print Assumptions C02_reentrant_model_conservative.
+
+(* "never entered while it is already being built": while constructor node n (running f)
+   is on the stack, no task — argument resolution, another constructor or decorator, an
+   Invoke called from inside a body, to any nesting depth — executes f, and n stays on
+   the stack.  (Side conditions: no body asks to Invoke f itself as the invoked function;
+   OS: n is on the stack, runs f, and no other node or decorator runs f.) *)
+Theorem C02_never_entered_while_being_built : forall cfg b nest du f n,
+  (forall f' e s p, In (s, p) (nest f' e) -> ii_fn p <> f) ->
+  forall depth fuel t st,
+  P_Once.refs_ok st -> pre_re f t st -> OS f n st ->
+  c_onstack (get_node (snd (eval_re cfg b nest du depth fuel t st)) n) = true /\
+  P_Once.nexec f (st_log (snd (eval_re cfg b nest du depth fuel t st))) = P_Once.nexec f (st_log st).
+Proof. exact P_Re.onstack_never_executed. Qed.
+Print Assumptions C02_never_entered_while_being_built.
+
+(* one activation of a constructor executes its function at most once, whatever its body
+   and the bodies it reaches ask the container for *)
+Theorem C02_activation_runs_once : forall cfg b nest du f n,
+  (forall f' e s p, In (s, p) (nest f' e) -> ii_fn p <> f) ->
+  forall depth fuel st,
+  P_Once.refs_ok st -> n < length (st_nodes st) -> c_fn (get_node st n) = f ->
+  (forall m, m < length (st_nodes st) -> m <> n -> c_fn (get_node st m) <> f) ->
+  (forall d, d < length (st_decs st) -> d_fn (get_dec st d) <> f) ->
+  P_Once.nexec f (st_log (snd (eval_re cfg b nest du depth fuel (TOld (TCallCtor n)) st)))
+    <= S (P_Once.nexec f (st_log st)).
+Proof. exact P_Re.ctor_activation_once. Qed.
+Print Assumptions C02_activation_runs_once.
+
+(* on re-entrant runs the checker can only report 202 (a body unwound by the unrecovered
+   panic of nested work runs again: its exec event, logged when the body starts, carries
+   the planned outcome — P_Re.ex_unwound_202) or 204 (divergence): execution indices (201)
+   and provenance of every argument (203) hold on every re-entrant run.  PARTIAL: 202
+   under a no-abort hypothesis is not proved *)
+Theorem C02_reentrant_codes_partial : forall depth cfg b nest du h i c,
+  In (i, c) (chk_C02 h (map obs_of (run_re_d depth cfg b nest du h))) -> c = 202 \/ c = 204.
+Proof. exact P_Re.chk_C02_re_codes. Qed.
+Print Assumptions C02_reentrant_codes_partial.
+
+(* dig never reaches a branch in which it would read an absent cache entry *)
+Theorem C02_reentrant_never_bug : forall cfg b nest du h,
+  wf_scopes h = true -> wf_keys h = true -> wf_nest nest ->
+  forall o, In o (run_re cfg b nest du h) ->
+    match so_verdict o with VAbort (ABug _) => False | _ => True end.
+Proof. exact P_Re.run_re_never_bug. Qed.
+Print Assumptions C02_reentrant_never_bug.
